@@ -94,6 +94,11 @@ func runAcceptRow(rep *Report, row *c11Row) {
 	case "dec14", "dec15", "dec17", "dec18":
 		n := map[string]int{"dec14": 14, "dec15": 15, "dec17": 17, "dec18": 18}[row.Req.Key]
 		b.WriteString("Sec-WebSocket-Key: " + base64.StdEncoding.EncodeToString([]byte("ABCDEFGHIJKLMNOPQRSTUVWXYZ")[:n]) + "\r\n")
+	case "ok16noncanon":
+		// decodes to 16 bytes, but the last sextet carries non-zero padding bits: the accept value must be computed from
+		// the key exactly as sent (RFC 6455 4.2.2 /5.4), not from a re-encoding of the decoded nonce
+		keyForAccept = "dGhlIHNhbXBsZSBub25jZR=="
+		b.WriteString("Sec-WebSocket-Key: " + keyForAccept + "\r\n")
 	case "ok16nopad":
 		// 16 bytes but without the '=' padding: not a valid standard base64 encoding of 16 bytes
 		b.WriteString("Sec-WebSocket-Key: " + strings.TrimRight(goodKey, "=") + "\r\n")
